@@ -712,8 +712,17 @@ class Element(UnicodeMixin):
             ns = self.resolvePrefix(self.prefix)
             if ns[1] is not None:
                 self.expns = ns[1]
+        # Prefixes used by attribute names or QName-like attribute values can
+        # not be replaced by a default namespace: keep them declared here.
+        kept = {}
+        for a in self.attributes:
+            for p in (a.prefix, splitPrefix(a.getValue())[0]):
+                if p is not None and p not in kept:
+                    ns = self.resolvePrefix(p, None)
+                    if ns is not None and ns[0] != Namespace.xmlns[0]:
+                        kept[p] = ns[1]
         self.prefix = None
-        self.nsprefixes = {}
+        self.nsprefixes = kept
         return self
 
     def normalizePrefixes(self):
